@@ -21,7 +21,10 @@ Rec == ndJsonDeserialize(IOEnv.TRACE)
 ResetIdx == {i \in DOMAIN Rec : Rec[i].k = "reset" /\ "bytes" \in DOMAIN Rec[i]}
 BytesMap == [id \in UNION {DOMAIN Rec[i].bytes : i \in ResetIdx} |->
                 Rec[CHOOSE i \in ResetIdx : id \in DOMAIN Rec[i].bytes].bytes[id]]
-TraceKeyBytes(id) == IF id \in DOMAIN BytesMap THEN BytesMap[id] ELSE <<>>
+\* a bank denom may be spelled like a contract address: denoms are looked up under "n:<denom>"
+TraceKeyBytes(x) ==
+    LET k == IF x.native THEN "n:" \o x.id ELSE x.id IN
+    IF k \in DOMAIN BytesMap THEN BytesMap[k] ELSE <<>>
 TraceAddrOfIndex(n) == "contract" \o ToString(n)
 
 PIDS == {"C01", "C02", "C03", "C04", "C05", "C06", "C07", "C09", "C10", "C11", "C12", "C13", "C14",
